@@ -190,6 +190,14 @@ def function_statements(model, name):
     return [s['function'] for s in model['statements'] if 'function' in s and s['function']['name'] == name]
 
 
+def _tuples(v):
+    if isinstance(v, dict):
+        return {k: _tuples(x) for k, x in v.items()}
+    if isinstance(v, (list, tuple)):
+        return tuple(_tuples(x) for x in v)
+    return v
+
+
 def check_model(model, globals0, run_it=True):
     d = {'kind': 'model', 'model': model, 'globals': enc(globals0)}
     before = copy.deepcopy(model)
@@ -212,6 +220,14 @@ def check_model(model, globals0, run_it=True):
     if w3 != w1:
         raise Violation('an equal copy of the model (no shared expression objects) gives other warnings: %r vs %r' % (
             [w for w in w3 if w not in w1][:2], [w for w in w1 if w not in w3][:2]), dict(d, shared_objects=True), 'lint-depends-on-object-identity')
+    # an equal model whose arrays are tuples (a host may build its models from tuples; validate_script and execute_script accept them)
+    try:
+        w5 = impl.bs.lint_script(_tuples(model))
+    except Exception as e:  # pylint: disable=broad-except
+        raise Violation('lint_script raised %s on an equal model whose arrays are tuples' % type(e).__name__, d, 'lint-raises') from e
+    if w5 != w1:
+        raise Violation('an equal model whose arrays are tuples gives other warnings: %r vs %r' % ([w for w in w5 if w not in w1][:2], [w for w in w1 if w not in w5][:2]),
+                        dict(d, tuples=True), 'lint-depends-on-sequence-type')
     # the returned list belongs to the caller: whatever the caller does to it, the next call's answer is the same
     if w1 is w2:
         raise Violation('two lint_script calls returned the very same list object', d, 'lint-shared-result')
